@@ -683,7 +683,8 @@ def _impl_mal(case):
             k["labels"] = labels.copy()
         return T.get_threshold(method, mod, img.copy(), **k)
     o1, o2 = _outcome(call), _outcome(call)
-    return {"outcome": o1[0], "exc_name": o1[1] if o1[0] == "exc" else None, "det": _same_outcome(o1, o2),
+    g = _outcome(lambda: (T.get_global_threshold(method, img.copy(), None if mask is None else mask.copy()), 0))
+    return {"global_ok": g[0] == "ok", "outcome": o1[0], "exc_name": o1[1] if o1[0] == "exc" else None, "det": _same_outcome(o1, o2),
             "nblocks": int(min(img.shape) // case["window"])}
 
 
@@ -806,6 +807,8 @@ def model(ctx, cases, outs):
         if c["fn"] != "thr" or _bad(o):
             continue
         if _rejected(c):
+            if isinstance(o, dict) and "raised" in o:
+                ctx.count("thr:rejected(None limit):%s" % o["raised"])
             # the implementation raises before any raw threshold can be observed: run the model on dummies
             ti.append(k)
             args.append([c["mod"], _q(c["cf"]), _q(0.5), _optq(c["lo"]), _optq(c["hi"]), [_q(0.25)], [], 0])
@@ -939,8 +942,11 @@ def compare(case, out, m):
         if _bad(out):
             return "implementation crashed: %s" % (str(out)[:300],)
         if _rejected(case):
-            if out.get("raised") != "TypeError":
-                return "range limit None with an array modifier: expected TypeError, implementation gave %s" % (str(out)[:200],)
+            # the model predicts a rejection (max(None, x) in the clamp stage).  Which exception the caller sees is
+            # NOT part of the claim: a callee may reject the same input earlier for its own reasons (e.g.
+            # average_fn=binned_mode raises ValueError on quantised data) and that order is not modelled.
+            if "raised" not in out:
+                return "range limit None with an array modifier: the model rejects the call, the implementation returned a value"
             return None if m == [[], []] else "model accepts a None range limit with an array modifier"
         if m in ("nonfinite", "raised"):
             return None
@@ -1023,8 +1029,12 @@ def check(ctx, cases, outs):
                 res[k] = "get_threshold crashed/hung on a malformed input: %s" % (str(o)[:300],)
             elif not o["det"]:
                 res[k] = "S4 determinism (malformed input %s): two identical calls behaved differently" % c["what"]
-            elif c["what"] == "window_too_large" and not (o["outcome"] == "exc" and o["exc_name"] == "ValueError"):
-                res[k] = "adaptive window larger than half the image was not rejected with ValueError: %s" % (o,)
+            elif c["what"] == "window_too_large" and o["outcome"] != "exc":
+                res[k] = "adaptive window larger than half the image was not rejected: %s" % (o,)
+            elif (c["what"] == "window_too_large" and o["global_ok"] and c.get("mask_dtype") is None
+                  and o["exc_name"] != "ValueError"):
+                # the documented ValueError is demanded only when it is the single rejection cause
+                res[k] = "adaptive window larger than half the image: expected the documented ValueError, got %s" % o["exc_name"]
             continue
         if c["fn"] == "thr":
             if _bad(o):
@@ -1097,7 +1107,11 @@ def check(ctx, cases, outs):
                 si.append(k)
                 sargs.append(("entry_check_po", [1 if o.get("f32") else 0,
                                                  [[t[0], _q(t[1])] for t in o["po_tab"] if t[0] not in nanl], px]))
-            badk = [p for p, ok in o.get("po", {}).items() if ok is not True]
+            for p_, ok in o.get("po", {}).items():
+                if isinstance(ok, str):
+                    # scrambling the OTHER objects made the loop raise on one of them: no statement about object p_
+                    ctx.count("po_perturbed_call_raised")
+            badk = [p for p, ok in o.get("po", {}).items() if ok is False]
             if badk:
                 res[k] = "S1 per object: pixels outside object %s changed its raw per-object threshold" % ",".join(badk)
                 continue
